@@ -7,8 +7,24 @@
     The buffer-recycling level (Reset / DoNotUse_ResetNoInit re-slice to [:0],
     CommandInit re-slices and zeroes) is [C02_slices_refine]; the hasher-pool
     level (several TPM objects, each with its own history, driven at the same
-    time and sharing [hasherPools]) is [C02_pool_*] at the end. *)
+    time and sharing [hasherPools]) is [C02_pool_*].
+
+    [C02_reference_tpm] / [C02_pcr_value_closed_form] state the first sentence of
+    the property as a whole: the model run on any history stays in step with a
+    reference TPM written from the property text ([rtpm], Proofs/TPMRef.v: a
+    started flag and a partial map of banks), and a bank holds the startup value
+    extended by exactly the digests addressed to it.
+
+    The API level ([C02_exec_*], [C02_commands_*], [C02_batch_*], [C02_replay_*],
+    [C02_set_value_*]; Model/TPMExec.v) covers what a caller can do beyond the
+    three wrappers with a nil info: TPMExecute of any Command -- single or a
+    (nested) Commands slice -- with a cause, Apply without the log, the log
+    replayed on another object, PCRValues.Set.  [xstate] is the TPM object with
+    its command log as entries (command, cause); [proj] forgets the causes and
+    reads the log as the list of single commands, which is the state of
+    Model/TPM.v; [same_core] is equality of banks, SupportedAlgos and event log. *)
 From CSS Require Import Lib.Base Model.TPM Proofs.TPM Model.TPMSlices Proofs.TPMSlices Model.TPMPool Proofs.TPMPool.
+From CSS Require Import Proofs.TPMRef Model.TPMExec Proofs.TPMExec.
 
 (** startup succeeds iff the TPM is not started ... *)
 Theorem C02_startup_outcome : forall H st l,
@@ -206,6 +222,194 @@ Theorem C02_pool_reset_before_put_needed :
 Proof. split; [exact put_first_breaks|exact reset_first_no_early_get]. Qed.
 Print Assumptions C02_pool_reset_before_put_needed.
 
+
+(** * The reference TPM (first sentence of the property, for whole histories) *)
+
+(** for every command history run on NewTPM(): the started flag, every bank of
+    the reference TPM (where it has none the implementation shows an empty slot
+    or an error), both logs, and the verdict on every single command (executed /
+    refused with an error, never a panic) agree with the reference TPM *)
+Theorem C02_reference_tpm : forall H h,
+  (forall a x, length (H a x) = hsize a) -> Forall cmd_in_range h ->
+  let st := run H fresh h in
+  let r := rrun H rnew h in
+  initialized st = r_started r /\
+  (forall p a v, r_bank r p a = Some v -> get (pcrs st) p a = Ok v) /\
+  (forall p a, r_bank r p a = None -> get (pcrs st) p a = Ok [] \/ exists e, get (pcrs st) p a = Err e) /\
+  cmdlog st = r_log r /\ evlog st = r_ev r /\
+  Forall2 res_agree (results H fresh h) (rresults H rnew h).
+Proof. intros H h HL. exact (ref_simulation H HL h). Qed.
+Print Assumptions C02_reference_tpm.
+
+(** after startup(l) and ANY further commands without a reset (refused ones,
+    event-log-adds and repeated startups included): bank (p, a) holds the
+    startup value extended by exactly the digests of the extends addressed to
+    it, in order -- nothing else ever reaches a bank *)
+Theorem C02_pcr_value_closed_form : forall H l h p a,
+  (forall a x, length (H a x) = hsize a) ->
+  no_reset h = true -> (p = 0 \/ p = 1) -> is_supported a = true ->
+  get (pcrs (run H fresh (Startup l :: h))) p a =
+  Ok (chain H a (if p =? 0 then repeat 0 (hsize a - 1) ++ [l] else repeat 0 (hsize a)) (digests p a h)).
+Proof. intros H l h p a HL. exact (pcr_closed_form H HL l h p a). Qed.
+Print Assumptions C02_pcr_value_closed_form.
+
+(** exact outcome of an extend in ANY state -- also one whose banks were
+    overridden through PCRValues.Set: executed iff the algorithm is a hash, the
+    bank exists and holds a value of the digest size *)
+Theorem C02_extend_outcome_any : forall H st p a d,
+  0 <= a < 65536 ->
+  (snd (step H st (Extend p a d)) = Ok tt <->
+   is_hash a = true /\ exists old, get (pcrs st) p a = Ok old /\ length old = hsize a).
+Proof. exact extend_outcome_any. Qed.
+Print Assumptions C02_extend_outcome_any.
+
+(** the algorithm table by the go-tpm names (each identifier and the SHA1 /
+    SHA256 / SHA384 / SHA512 digest sizes are re-read from the source by the
+    constants tie): which identifiers reach a hasher, which have a bank *)
+Theorem C02_algorithm_table :
+  hsize ALG_SHA1 = 20%nat /\ hsize ALG_SHA256 = 32%nat /\ hsize ALG_SHA384 = 48%nat /\
+  hsize ALG_SHA512 = 64%nat /\ hsize ALG_SHA3_256 = 32%nat /\ hsize ALG_SHA3_384 = 48%nat /\
+  hsize ALG_SHA3_512 = 64%nat /\
+  (forall a, is_hash a = true <->
+     In a [ALG_SHA1; ALG_SHA256; ALG_SHA384; ALG_SHA512; ALG_SHA3_256; ALG_SHA3_384; ALG_SHA3_512]) /\
+  (forall a, is_supported a = true <-> a = ALG_SHA1 \/ a = ALG_SHA256) /\
+  Z.of_nat BANKS = ALG_SHA256 + 1 /\ ALG_SHA384 = Z.of_nat BANKS.
+Proof. exact hsize_table. Qed.
+Print Assumptions C02_algorithm_table.
+
+(** * The API level: TPMExecute of any Command with a cause, Apply, Commands, Set *)
+
+(** TPMExecute of single commands, WHATEVER cause provider is passed, and the two
+    resets are the value model: every theorem above about [run] / [results]
+    holds for such calls *)
+Theorem C02_exec_refines : forall H ops s,
+  forallb single_op ops = true ->
+  proj (xrun H s ops) = run H (proj s) (map cmd_of ops) /\
+  xresults H s ops = results H (proj s) (map cmd_of ops).
+Proof. intros H ops s. exact (exec_refines H ops s). Qed.
+Print Assumptions C02_exec_refines.
+
+(** the command log is exact at this level too: every TPMExecute -- single
+    command or Commands slice, returning nil or an error -- adds exactly one
+    entry, which carries the command and the cause it was given; Apply and Set
+    add nothing; a reset empties the log *)
+Theorem C02_exec_log_exact : forall H s ops,
+  no_xreset ops = true -> x_log (xrun H s ops) = x_log s ++ entries_of ops.
+Proof. exact exec_log_exact. Qed.
+Print Assumptions C02_exec_log_exact.
+
+Theorem C02_exec_log_after_reset : forall H s ops1 o ops2,
+  is_xreset o = true -> no_xreset ops2 = true ->
+  x_log (xrun H s (ops1 ++ o :: ops2)) = entries_of ops2.
+Proof. exact exec_log_after_reset. Qed.
+Print Assumptions C02_exec_log_after_reset.
+
+(** TPMExecute(x, info) and x.Apply differ in the log entry and in nothing else *)
+Theorem C02_exec_vs_apply : forall H s x cz,
+  same_core (core (fst (xstep H s (OExec x cz)))) (core (fst (xstep H s (OApply x)))) /\
+  snd (xstep H s (OExec x cz)) = snd (xstep H s (OApply x)) /\
+  x_log (fst (xstep H s (OExec x cz))) = x_log (fst (xstep H s (OApply x))) ++ [mkEntry x cz].
+Proof. exact exec_vs_apply. Qed.
+Print Assumptions C02_exec_vs_apply.
+
+(** Commands.Apply, nested or not, is its single commands in order ... *)
+Theorem C02_commands_apply_flat : forall H x st,
+  xapply H x st = seq_apply H st (flat x).
+Proof. exact xapply_flat. Qed.
+Print Assumptions C02_commands_apply_flat.
+
+(** ... it returns nil iff every one of them returns nil, and then all were applied ... *)
+Theorem C02_commands_apply_ok_iff : forall H st cs st',
+  seq_apply H st cs = (st', Ok tt) <-> Forall ok_res (ares H st cs) /\ st' = arun H st cs.
+Proof. exact seq_apply_ok_iff. Qed.
+Print Assumptions C02_commands_apply_ok_iff.
+
+(** ... otherwise it stops at the first command that does not: that one changes
+    nothing, the earlier ones stay applied, the later ones are not reached *)
+Theorem C02_commands_apply_stops : forall H st cs,
+  snd (seq_apply H st cs) <> Ok tt ->
+  exists pre c post,
+    cs = pre ++ c :: post /\ Forall ok_res (ares H st pre) /\
+    snd (apply H (arun H st pre) c) = snd (seq_apply H st cs) /\
+    fst (seq_apply H st cs) = arun H st pre.
+Proof. exact seq_apply_stops. Qed.
+Print Assumptions C02_commands_apply_stops.
+
+(** a Commands slice executed through TPMExecute that returns nil did to banks,
+    SupportedAlgos and event log what executing its single commands one by one
+    does (all of which return nil) -- but it is ONE log entry instead of one per command *)
+Theorem C02_batch_ok_as_sequence : forall H s x cz,
+  snd (xstep H s (OExec x cz)) = Ok tt ->
+  same_core (core (fst (xstep H s (OExec x cz)))) (core (xrun H s (map exec1 (flat x)))) /\
+  Forall ok_res (xresults H s (map exec1 (flat x))) /\
+  x_log (fst (xstep H s (OExec x cz))) = x_log s ++ [mkEntry x cz] /\
+  x_log (xrun H s (map exec1 (flat x))) = x_log s ++ map (fun c => mkEntry (XOne c) None) (flat x).
+Proof. exact batch_ok_as_sequence. Qed.
+Print Assumptions C02_batch_ok_as_sequence.
+
+(** one that returns an error leaves the object where executing the single
+    commands BEFORE the failing one leaves it (so it is not without effect:
+    example [batch_error_not_atomic] below); the error is the failing command's *)
+Theorem C02_batch_error_prefix : forall H s x cz,
+  snd (xstep H s (OExec x cz)) <> Ok tt ->
+  exists pre c post,
+    flat x = pre ++ c :: post /\
+    Forall ok_res (xresults H s (map exec1 pre)) /\
+    snd (xstep H (xrun H s (map exec1 pre)) (exec1 c)) = snd (xstep H s (OExec x cz)) /\
+    same_core (core (fst (xstep H s (OExec x cz)))) (core (xrun H s (map exec1 pre))).
+Proof. exact batch_error_prefix. Qed.
+Print Assumptions C02_batch_error_prefix.
+
+(** no operation of the API level panics (16-bit algorithm identifiers) *)
+Theorem C02_exec_no_panic : forall H s o,
+  match o with
+  | OExec x _ | OApply x => Forall cmd_in_range (flat x)
+  | _ => True
+  end ->
+  snd (xstep H s o) <> Panic /\ snd (xstep H s o) <> OutOfFuel.
+Proof. exact xstep_no_panic. Qed.
+Print Assumptions C02_exec_no_panic.
+
+(** [log.Commands().Apply(ctx, NewTPM())] (cmd/exp/pcr0tool sum): for an object
+    driven from NewTPM() through TPMExecute calls only (single commands, Commands
+    slices, any causes) all of which returned nil, the new object ends with the
+    same banks, SupportedAlgos and event log, and Apply returns nil *)
+Theorem C02_replay_log_ok : forall H ops,
+  forallb is_exec ops = true ->
+  Forall ok_res (xresults H xfresh ops) ->
+  same_core (fst (replay_on_new H (xrun H xfresh ops))) (core (xrun H xfresh ops)) /\
+  snd (replay_on_new H (xrun H xfresh ops)) = Ok tt.
+Proof. exact replay_log_ok. Qed.
+Print Assumptions C02_replay_log_ok.
+
+(** when one of the calls returned an error, the replay ends there with that
+    error: the new object is the original as it was right after the failing call,
+    whatever was executed later is not replayed (example [replay_loses_later_extends]) *)
+Theorem C02_replay_log_stops : forall H pre o post,
+  forallb is_exec (pre ++ o :: post) = true ->
+  Forall ok_res (xresults H xfresh pre) ->
+  snd (xstep H (xrun H xfresh pre) o) <> Ok tt ->
+  same_core (fst (replay_on_new H (xrun H xfresh (pre ++ o :: post))))
+            (core (xrun H xfresh (pre ++ [o]))) /\
+  snd (replay_on_new H (xrun H xfresh (pre ++ o :: post))) = snd (xstep H (xrun H xfresh pre) o).
+Proof. exact replay_log_stops. Qed.
+Print Assumptions C02_replay_log_stops.
+
+(** PCRValues.Set: either the bank exists and is overridden, every other bank
+    reading as before, or an error is returned and nothing changes *)
+Theorem C02_set_value_ok : forall pv p a v pv',
+  set_value pv p a v = (pv', Ok tt) ->
+  get pv' p a = Ok v /\
+  (forall p' a', (p', a') <> (p, a) -> get pv' p' a' = get pv p' a') /\
+  exists old, get pv p a = Ok old.
+Proof. exact set_value_ok. Qed.
+Print Assumptions C02_set_value_ok.
+
+Theorem C02_set_value_err : forall pv p a v pv' e,
+  set_value pv p a v = (pv', Err e) -> pv' = pv /\ exists e', get pv p a = Err e'.
+Proof. exact set_value_err. Qed.
+Print Assumptions C02_set_value_err.
+
 (** * The hypotheses are satisfiable, and the statements are not vacuous *)
 
 Definition H0 : Z -> list Z -> list Z := fun a x => repeat (Z.of_nat (length x)) (hsize a).
@@ -231,6 +435,74 @@ Proof. reflexivity. Qed.
 
 Example hist0_wf_started : wf (run H0 fresh hist0) /\ initialized (run H0 fresh hist0) = true.
 Proof. split; [apply C02_wf_reachable; exact H0_length|reflexivity]. Qed.
+
+
+(** the reference TPM on [hist0]: the verdicts, and the only banks it has *)
+Example ref_hist0 :
+  Forall cmd_in_range hist0 /\
+  rresults H0 rnew hist0 = [false; true; true; true; false; false; false; true] /\
+  r_bank (rrun H0 rnew hist0) 0 4 = Some (repeat 22 20) /\
+  r_bank (rrun H0 rnew hist0) 2 4 = None /\ r_bank (rrun H0 rnew hist0) 0 12 = None.
+Proof. split; [repeat constructor; cbn; lia|vm_compute; auto]. Qed.
+
+(** closed form on a history with refused commands in between *)
+Example closed_form_hist :
+  let h := [Extend 0 4 [1; 2]; Extend 0 65535 []; Startup 9; Extend 1 4 [5]; LogAdd 0 4 [9] 3 None; Extend 0 4 []] in
+  no_reset h = true /\ digests 0 4 h = [[1; 2]; []] /\
+  get (pcrs (run H0 fresh (Startup 3 :: h))) 0 4 = Ok (repeat 20 20).
+Proof. vm_compute. auto. Qed.
+
+(** an API-level history: causes, a nested Commands slice, a direct Apply, a Set *)
+Definition xops0 : list op :=
+  [OExec (XOne (Startup 3)) (Some (1, 10));
+   OExec (XMany [XOne (Extend 0 4 [1; 2]); XMany [XOne (Extend 1 4 [5]); XOne (LogAdd 0 4 [9] 3 None)]]) None;
+   OApply (XOne (Extend 0 4 []));
+   OSet 1 11 [7; 7];
+   OExec (XOne (Extend 1 11 [1])) (Some (2, 20))].
+
+Example xops0_results :
+  xresults H0 xfresh xops0 = [Ok tt; Ok tt; Ok tt; Ok tt; Err ERR_BANK_LEN] /\
+  no_xreset xops0 = true /\
+  map e_cause (x_log (xrun H0 xfresh xops0)) = [Some (1, 10); None; Some (2, 20)] /\
+  get (x_pcrs (xrun H0 xfresh xops0)) 0 4 = Ok (repeat 20 20) /\
+  get (x_pcrs (xrun H0 xfresh xops0)) 1 11 = Ok [7; 7].
+Proof. vm_compute. auto. Qed.
+
+(** the hypotheses of [C02_exec_refines] and [C02_replay_log_ok] on non-trivial lists *)
+Definition xops1 : list op :=
+  [OExec (XOne (Startup 3)) (Some (1, 10)); OExec (XOne (Extend 0 4 [1; 2])) None;
+   OExec (XMany [XOne (Extend 1 4 [5]); XOne (Extend 0 11 [])]) (Some (2, 20))].
+
+Example xops1_premises :
+  forallb single_op (firstn 2 xops1 ++ [OReset]) = true /\
+  forallb is_exec xops1 = true /\
+  Forall ok_res (xresults H0 xfresh xops1) /\
+  get (pcrs (fst (replay_on_new H0 (xrun H0 xfresh xops1)))) 0 4 = Ok (repeat 22 20).
+Proof. split; [reflexivity|]. split; [reflexivity|]. split; [repeat constructor|vm_compute; reflexivity]. Qed.
+
+(** a Commands slice that returns an error is not without effect: the extend
+    before the refused one stays (this is Commands.Apply as documented; the
+    property's "leaves all PCR values unchanged" is about the single commands,
+    [C02_fail_unchanged]) *)
+Example batch_error_not_atomic :
+  let s := xrun H0 xfresh [OExec (XOne (Startup 3)) None] in
+  let o := OExec (XMany [XOne (Extend 0 4 [1; 2]); XOne (Extend 0 12 [1]); XOne (Extend 1 4 [5])]) None in
+  snd (xstep H0 s o) = Err ERR_NO_BANK /\
+  get (x_pcrs s) 0 4 = Ok (repeat 0 19 ++ [3]) /\
+  get (x_pcrs (fst (xstep H0 s o))) 0 4 = Ok (repeat 22 20) /\
+  get (x_pcrs (fst (xstep H0 s o))) 1 4 = get (x_pcrs s) 1 4.
+Proof. vm_compute. auto. Qed.
+
+(** a refused command in the log makes the replay on a new object stop there:
+    the extend executed after it is missing on the new object *)
+Example replay_loses_later_extends :
+  let ops := [OExec (XOne (Startup 3)) None; OExec (XOne (Extend 0 12 [1])) None; OExec (XOne (Extend 0 4 [1; 2])) None] in
+  forallb is_exec ops = true /\
+  xresults H0 xfresh ops = [Ok tt; Err ERR_NO_BANK; Ok tt] /\
+  snd (replay_on_new H0 (xrun H0 xfresh ops)) = Err ERR_NO_BANK /\
+  get (x_pcrs (xrun H0 xfresh ops)) 0 4 = Ok (repeat 22 20) /\
+  get (pcrs (fst (replay_on_new H0 (xrun H0 xfresh ops)))) 0 4 = Ok (repeat 0 19 ++ [3]).
+Proof. vm_compute. auto. Qed.
 
 (** a reused object at buffer level: stale digests stay in the backing arrays
     (second component) but are not visible (first component) *)
